@@ -472,7 +472,6 @@ def run_property(prop_id, obligations, tier, level="model_checking", assumptions
             "distinct_nontrivial": sum(1 for r in results if r.status in ("discharged", "known-finding") and r.witness_ok > 0),
             "rule": "one evaluation = one cbmc query (obligation) over the real source with symbolic data; non-trivial = verdict reached and at least one reachability witness inside it was shown reachable; obligations are distinct by key (harness x parameters)",
             "samples": samples,
-            "states": max(1, n_ob), "transitions": max(1, sum(r.nprops for r in results)),
             "traces_validated_against_impl": traces_validated,
             "checker_cmd": " ".join(cbmc_cmd(obligations[0], "$SCRATCH")) if obligations else "",
             "trusted_base": ["cbmc 6.11.0 (symex + MiniSat)", "stubs/libc_models.h", "harness-built states and reference oracles"],
@@ -486,7 +485,7 @@ def run_property(prop_id, obligations, tier, level="model_checking", assumptions
                                 "witnesses": r.witness_ok, "rss_mb": r.rss_kb // 1024,
                                 "reason": r.reason[:200]} for r in results],
             "known_findings_seen": sorted(set(k["what"] for _, _, k in known_hits)),
-            "note_states_transitions": "no state graph is explored; 'states' repeats the obligation count and 'transitions' the number of cbmc properties decided, only to satisfy the schema keys",
+            "note_states_transitions": "no state graph is explored by this technique, so no states/transitions counts are reported; obligations/discharged and cbmc_properties_checked are the measured quantities",
         }
         if extra_coverage:
             cov.update(extra_coverage)
